@@ -639,7 +639,7 @@ about fill patterns that have no deterministic model (`rand`): lengths and valid
 Tied to the real objects by the `tree_ops` stream.
 -/
 namespace SpsdkVerif.C16
-open SpsdkVerif SpsdkVerif.BinImg SpsdkVerif.Misc
+open SpsdkVerif SpsdkVerif.BinImg SpsdkVerif.Misc SpsdkVerif.Generated.BinImageGeo
 
 /-- `join_images` preserves the export: a valid tree becomes one leaf with the same length whose export is, byte for byte,
     the export of the tree, and which still validates -/
@@ -714,6 +714,43 @@ theorem update_offsets_spec (i : Img) (hne : i.children ≠ []) :
 
 theorem update_offsets_error (i : Img) : (∃ e, i.updateOffsets = .error e) ↔ i.children = [] :=
   updateOffsets_error i
+
+/-- the `size` setter and the constructor agree, as the source has them NOW (both generated from images.py): each stores
+    the value rounded up to the alignment, which is what the model's `setSize` stores (false for seeded change C16g) -/
+theorem set_size_agrees_with_constructor (i : Img) (n : Nat) (ha : 0 < i.alignment) :
+    genSetSize n i.alignment = genCtorSize n i.alignment ∧ genSetSize n i.alignment = .ok ((i.setSize n).size : Int) ∧
+      (i.setSize n).size % i.alignment = 0 := by
+  cases i with
+  | mk s o a b p ch =>
+    simp only [Img.alignment, Img.setSize, Img.size] at ha ⊢
+    exact ⟨by rw [genSetSize_eq n a ha, genCtorSize_eq n a ha], genSetSize_eq n a ha, (alignNat_spec n a ha).1⟩
+
+/-- after `image.size = n` (any `n`, multiple of the alignment or not) the image is as well-formed as a constructed one:
+    its reported length is a multiple of the alignment, and when it validates it exports exactly `len()` bytes -/
+theorem set_size_export_length (i : Img) (n : Nat) (ha : 0 < i.alignment) (hc : ∀ c ∈ i.children, AlignWF c)
+    (hv : (i.setSize n).validate = .ok ()) :
+    AlignWF (i.setSize n) ∧ (i.setSize n).len % i.alignment = 0 ∧
+      ∃ b, (i.setSize n).export = .ok b ∧ b.length = (i.setSize n).len := by
+  have hw : AlignWF (i.setSize n) := by
+    cases i with
+    | mk s o a b p ch =>
+      simp only [Img.alignment, Img.children] at ha hc
+      exact .mk _ ha (alignNat_spec n a ha).1 hc
+  have hal : (i.setSize n).alignment = i.alignment := by cases i; rfl
+  refine ⟨hw, ?_, export_length _ hv hw⟩
+  rw [← hal]; exact len_aligned _ hw
+
+/-- a non-zero assigned size is the reported length -/
+theorem set_size_len (i : Img) (n : Nat) (ha : 0 < i.alignment) (hn : 0 < n) : (i.setSize n).len = alignNat n i.alignment := by
+  cases i with
+  | mk s o a b p ch =>
+    simp only [Img.alignment] at ha
+    have := (alignNat_spec n a ha).2.1
+    simp only [Img.setSize, Img.len, Img.alignment]
+    rw [if_pos (by omega)]
+
+example : ((Img.mk 0 0 4 (some [1, 2, 3, 4, 5]) (some .ones) []).setSize 7).export = .ok [1, 2, 3, 4, 5, 0xFF, 0xFF, 0xFF] ∧
+    ((Img.mk 0 0 4 (some [1, 2, 3, 4, 5]) (some .ones) []).setSize 7).validate = .ok () := by decide
 
 /-- `find_sub_image`: the first sub-image with that name, an error exactly when there is none -/
 theorem find_sub_image_spec (names : List String) (name : String) :
